@@ -62,3 +62,61 @@ Corollary reverse_source_spec : forall (vs : list T) (fuel : nat),
 Proof. intros vs fuel Hf. rewrite reverse_is_source by exact Hf. rewrite MP.reverse_impl_spec. reflexivity. Qed.
 
 End Elem.
+
+(* ---- Select (iter.Seq) ----
+   Select returns a closure; the heap backend translates F(vs, f)(yield) as ONE function of both
+   parameter lists (the outer function does nothing before it returns the closure, which assigns
+   none of the captured parameters).  The consumer is a state machine: yield threads a state and
+   answers the bool Go's yield function returns.  The model (SliceUtilExtraModel.select_loop)
+   is over the same kind of consumer and also counts the calls of f; the generated function
+   returns the consumer's final state: tied to the first component, for every consumer, every
+   test f, every list, every start state, fuel above the length. *)
+From Mds Require Gen.FnSliceIter Slice.SliceUtilExtraModel.
+Module It := FnSliceIter.
+Module XM := SliceUtilExtraModel.
+
+Section Iter.
+Context {T S : Type}.
+Variable yieldT : S -> T -> S * bool.
+Variable f : T -> bool.
+
+(* the model's consumer as the generated code's callback: (state, value) -> (answer, state) *)
+Definition gyield (s : S) (v : T) : res (bool * S) := Ok (snd (yieldT s v), fst (yieldT s v)).
+
+Lemma select_loop_eq : forall (suf pre : list T) (s : S) (calls : Z) (fuel gas : nat),
+  (gas > length suf)%nat ->
+  bind (It.Select_loop1 fuel gas (pre ++ suf) f gyield (zlen (pre ++ suf)) s (zlen pre))
+       (fun r => match r with Ret s' => Ok s' | Next (s', _) => Ok s' end)
+  = Ok (fst (XM.select_loop yieldT f suf s calls)).
+Proof.
+  induction suf as [|v suf IH]; intros pre s calls fuel gas Hg.
+  - destruct gas; [simpl in Hg; lia|]. cbn [It.Select_loop1 XM.select_loop]. rewrite app_nil_r.
+    rewrite Z.ltb_irrefl. reflexivity.
+  - destruct gas; [simpl in Hg; lia|]. cbn [It.Select_loop1 XM.select_loop].
+    assert (C : zlen pre <? zlen (pre ++ v :: suf) = true) by (apply Z.ltb_lt; unfold zlen; rewrite app_length; simpl; lia).
+    rewrite C.
+    assert (G : go_get (pre ++ v :: suf) (zlen pre) = Ok v).
+    { unfold go_get.
+      assert (C2 : (0 <=? zlen pre) && (zlen pre <? zlen (pre ++ v :: suf)) = true)
+        by (rewrite C; apply andb_true_intro; split; [apply Z.leb_le; unfold zlen; lia|reflexivity]).
+      rewrite C2. unfold zlen. rewrite Nat2Z.id, nth_error_app2 by lia. rewrite Nat.sub_diag. reflexivity. }
+    rewrite G. cbn [bind].
+    replace (pre ++ v :: suf) with ((pre ++ [v]) ++ suf) by (rewrite <- app_assoc; reflexivity).
+    replace (zlen pre + 1) with (zlen (pre ++ [v])) by (unfold zlen; rewrite app_length; simpl; lia).
+    destruct (f v).
+    + unfold gyield at 1. cbn [bind]. destruct (yieldT s v) as [s1 b]. cbn [fst snd].
+      destruct b; cbn [negb].
+      * apply IH. simpl in Hg. lia.
+      * reflexivity.
+    + cbn [bind]. apply IH. simpl in Hg. lia.
+Qed.
+
+Theorem select_is_source : forall (vs : list T) (s : S) (fuel : nat),
+  (fuel > length vs)%nat ->
+  It.Select vs f gyield s fuel = Ok (fst (XM.select_loop yieldT f vs s 0)).
+Proof.
+  intros vs s fuel Hf. unfold It.Select. cbv zeta.
+  rewrite <- (select_loop_eq vs [] s 0 fuel fuel Hf). cbn [app]. change (zlen (@nil T)) with 0.
+  destruct (It.Select_loop1 fuel fuel vs f gyield (zlen vs) s 0) as [c| |]; [destruct c as [[s' r]|s']| |]; reflexivity.
+Qed.
+End Iter.
